@@ -211,7 +211,12 @@ func ParseBuildLabelParts(target, currentPath, subrepo string) (string, string, 
 	if strings.HasSuffix(target, "/...") {
 		return strings.TrimRight(target[2:len(target)-3], "/"), "...", ""
 	} else if idx := strings.LastIndexByte(target, '/'); idx != -1 {
+		if !validateTargetName(target[idx+1:]) {
+			return "", "", "" // the implied target name must be one we could print and parse again
+		}
 		return target[2:], target[idx+1:], subrepo
+	} else if !validateTargetName(target[2:]) {
+		return "", "", ""
 	}
 	return target[2:], target[2:], subrepo
 }
@@ -222,14 +227,20 @@ func parseBuildLabelSubrepo(target, currentPath string) (string, string, string)
 	if idx == -1 {
 		// if subrepo and target are the same name, then @subrepo syntax will also suffice
 		if idx = strings.IndexByte(target, ':'); idx == -1 {
+			name := target
 			if idx := strings.LastIndexByte(target, '/'); idx != -1 {
-				return "", target[idx+1:], target
+				name = target[idx+1:]
 			}
-			return "", target, target
+			if !validateTargetName(name) || target[0] == '/' {
+				return "", "", "" // the implied target name and the subrepo must survive printing and re-parsing
+			}
+			return "", name, target
 		}
 	}
 	if strings.ContainsRune(target[:idx], ':') {
 		return "", "", ""
+	} else if idx > 0 && (target[0] == '/' || target[idx-1] == '/') {
+		return "", "", "" // a subrepo name with a leading or trailing slash does not survive printing and re-parsing
 	}
 	pkg, name, _ := ParseBuildLabelParts(target[idx:], currentPath, "")
 	return pkg, name, target[:idx]
